@@ -70,19 +70,22 @@ func runScenario(tag, name string, f func()) {
 	f()
 }
 
-func main() {
+// The XGo compiler adds its own (empty) main to the package; the runner lives in init.
+func init() {
 	for _, s := range scenarioTable {
 		runScenario("X", s.name, s.x)
 		runScenario("G", s.name, s.g)
 	}
 	os.Stdout.Sync()
+	os.Exit(0)
 }
 `
 
 // Built is the result of compiling, building and running a batch of scenarios.
 type Built struct {
 	CompileErr map[string]string // scenario name → XGo compiler error (scenario dropped from the binary)
-	BuildErr   string            // go build failed for the whole package
+	BuildErr   string            // go build failed for the whole package (not attributable)
+	GoErr      map[string]string // scenario name → go build error in the compiler's output for it (dropped)
 	X, G       map[string]string // canonical outcome per scenario: compiler output / documented expansion
 	GoText     string            // what the real compiler emitted (for the structural tie)
 	Timeout    bool
@@ -126,7 +129,11 @@ func compile(scs []*Scenario) ([]byte, error) {
 // compiler rejects are attributed one by one and dropped), adds the plain-Go files, builds once
 // and runs once.
 func BuildAndRun(dir string, scs []*Scenario, timeout time.Duration) (*Built, error) {
-	res := &Built{CompileErr: map[string]string{}, X: map[string]string{}, G: map[string]string{}}
+	res := &Built{CompileErr: map[string]string{}, GoErr: map[string]string{}, X: map[string]string{}, G: map[string]string{}}
+	return buildAndRun(dir, scs, timeout, res, true)
+}
+
+func buildAndRun(dir string, scs []*Scenario, timeout time.Duration, res *Built, retry bool) (*Built, error) {
 	out, err := compile(scs)
 	live := scs
 	if err != nil {
@@ -163,7 +170,25 @@ func BuildAndRun(dir string, scs []*Scenario, timeout time.Duration) (*Built, er
 	cmd := exec.Command("go", "build", "-o", "prog", ".")
 	cmd.Dir, cmd.Env = dir, env
 	if o, err := cmd.CombinedOutput(); err != nil {
-		res.BuildErr = strings.TrimSpace(string(o))
+		msg := strings.TrimSpace(string(o))
+		// attribute errors in the compiler's output to scenarios (by enclosing function), drop them, retry once
+		bad := offenders(string(out), msg, live)
+		if retry && len(bad) > 0 && len(bad) < len(live) {
+			var rest []*Scenario
+			for _, sc := range live {
+				if m, ok := bad[sc.Name]; ok {
+					res.GoErr[sc.Name] = m
+				} else {
+					rest = append(rest, sc)
+				}
+			}
+			return buildAndRun(dir, rest, timeout, res, false)
+		}
+		if len(bad) == len(live) && len(bad) > 0 && len(live) == 1 {
+			res.GoErr[live[0].Name] = bad[live[0].Name]
+			return res, nil
+		}
+		res.BuildErr = msg
 		return res, nil
 	}
 	ctx, cancel := context.WithTimeout(context.Background(), timeout)
@@ -181,6 +206,42 @@ func BuildAndRun(dir string, scs []*Scenario, timeout time.Duration) (*Built, er
 		return res, fmt.Errorf("generated program died: %v", runErr)
 	}
 	return res, nil
+}
+
+// offenders maps scenario names to the first go build error reported inside one of their
+// functions in xgo_autogen.go.
+func offenders(goText, msg string, scs []*Scenario) map[string]string {
+	lines := strings.Split(goText, "\n")
+	owner := map[string]string{}
+	for _, sc := range scs {
+		for _, f := range sc.Prog.Funcs {
+			owner[f.Name] = sc.Name
+		}
+	}
+	bad := map[string]string{}
+	for _, ln := range strings.Split(msg, "\n") {
+		ln = strings.TrimSpace(ln)
+		if !strings.HasPrefix(ln, "./xgo_autogen.go:") {
+			continue
+		}
+		var n int
+		fmt.Sscanf(strings.TrimPrefix(ln, "./xgo_autogen.go:"), "%d", &n)
+		for i := n - 1; i >= 0 && i < len(lines); i-- {
+			if strings.HasPrefix(lines[i], "func ") {
+				name := strings.TrimPrefix(lines[i], "func ")
+				if j := strings.IndexByte(name, '('); j >= 0 {
+					name = name[:j]
+				}
+				if sc, ok := owner[name]; ok {
+					if _, seen := bad[sc]; !seen {
+						bad[sc] = ln
+					}
+				}
+				break
+			}
+		}
+	}
+	return bad
 }
 
 func firstLine(s string) string {
